@@ -412,6 +412,22 @@ func (run *checkRun) report(verbose bool) int {
 				knownSeen[name] = true
 				continue
 			}
+			// a family deviation of a class that a known finding of this property lists
+			covered := false
+			if i := strings.Index(name, ".family."); i >= 0 {
+				class := name[i+len(".family."):]
+				for ob, k := range run.known {
+					for _, fc := range strings.Split(k.FamilyClass, ",") {
+						if strings.TrimSpace(fc) == class {
+							knownSeen[ob] = true
+							covered = true
+						}
+					}
+				}
+			}
+			if covered {
+				continue
+			}
 			bfails = append(bfails, bfail{name, f})
 		}
 	}
